@@ -1,0 +1,129 @@
+// Copyright 2023 The Go Authors. All rights reserved.
+// Use of this source code is governed by a BSD-style
+// license that can be found in the LICENSE file.
+
+//go:build verif && (!goexperiment.jsonv2 || !go1.25)
+
+package jsonwire
+
+import (
+	"strconv"
+	"unicode/utf16"
+	"unicode/utf8"
+)
+
+var _ = strconv.Itoa
+var _ = utf16.IsSurrogate
+
+// UTF-8 specification, transcribed from the Unicode Standard, Table 3-7
+// ("Well-Formed UTF-8 Byte Sequences"), independently of unicode/utf8.
+
+//@ spec isCont
+func isCont(c byte) bool { return 0x80 <= c && c <= 0xBF }
+
+// utf8Len is the length of the well-formed sequence starting at b[k];
+// 0 if b[k:] starts with an ill-formed sequence; -1 if b[k:] is empty or a
+// proper prefix of a well-formed sequence (more input could complete it).
+//
+//@ spec utf8Len
+func utf8Len(b []byte, k int) int {
+	n := len(b) - k
+	if n <= 0 {
+		return -1
+	}
+	c0 := b[k]
+	if c0 < 0x80 {
+		return 1
+	}
+	if c0 < 0xC2 {
+		return 0 // continuation byte or overlong C0/C1
+	}
+	if c0 < 0xE0 { // C2..DF 80..BF
+		if n < 2 {
+			return -1
+		}
+		if !isCont(b[k+1]) {
+			return 0
+		}
+		return 2
+	}
+	if c0 < 0xF0 { // E0 A0..BF 80..BF | E1..EC 80..BF 80..BF | ED 80..9F 80..BF | EE..EF 80..BF 80..BF
+		if n < 2 {
+			return -1
+		}
+		c1 := b[k+1]
+		if !isCont(c1) || (c0 == 0xE0 && c1 < 0xA0) || (c0 == 0xED && c1 > 0x9F) {
+			return 0
+		}
+		if n < 3 {
+			return -1
+		}
+		if !isCont(b[k+2]) {
+			return 0
+		}
+		return 3
+	}
+	if c0 < 0xF5 { // F0 90..BF | F1..F3 80..BF | F4 80..8F, then 80..BF 80..BF
+		if n < 2 {
+			return -1
+		}
+		c1 := b[k+1]
+		if !isCont(c1) || (c0 == 0xF0 && c1 < 0x90) || (c0 == 0xF4 && c1 > 0x8F) {
+			return 0
+		}
+		if n < 3 {
+			return -1
+		}
+		if !isCont(b[k+2]) {
+			return 0
+		}
+		if n < 4 {
+			return -1
+		}
+		if !isCont(b[k+3]) {
+			return 0
+		}
+		return 4
+	}
+	return 0
+}
+
+// utf8Rune is the scalar value encoded by the well-formed sequence at b[k]
+// (meaningful only when utf8Len(b, k) > 0).
+//
+//@ spec utf8Rune
+func utf8Rune(b []byte, k int) rune {
+	n := utf8Len(b, k)
+	if n == 1 {
+		return rune(b[k])
+	}
+	if n == 2 {
+		return rune(b[k]&0x1F)<<6 | rune(b[k+1]&0x3F)
+	}
+	if n == 3 {
+		return rune(b[k]&0x0F)<<12 | rune(b[k+1]&0x3F)<<6 | rune(b[k+2]&0x3F)
+	}
+	if n == 4 {
+		return rune(b[k]&0x07)<<18 | rune(b[k+1]&0x3F)<<12 | rune(b[k+2]&0x3F)<<6 | rune(b[k+3]&0x3F)
+	}
+	return utf8.RuneError
+}
+
+// Assumed contracts of unicode/utf8 (validated exhaustively against the real
+// functions by the spec-validation run; see /verif/DESIGN.md).
+
+//@ extern utf8.DecodeRune(p []byte) (r rune, size int)
+//@ trusted unicode/utf8: validated exhaustively over all 1..4-byte inputs
+//@ ensures empty: len(p) == 0 ==> r == utf8.RuneError && size == 0
+//@ ensures invalid: len(p) > 0 && utf8Len(p, 0) <= 0 ==> r == utf8.RuneError && size == 1
+//@ ensures valid: len(p) > 0 && utf8Len(p, 0) > 0 ==> r == utf8Rune(p, 0) && size == utf8Len(p, 0)
+
+//@ extern utf8.FullRune(p []byte) (result bool)
+//@ trusted unicode/utf8: validated exhaustively over all 0..4-byte inputs
+//@ ensures result == (utf8Len(p, 0) != -1)
+
+//@ extern strconv.QuoteRune(r rune) (result string)
+//@ trusted strconv: pure function; only used to build error messages
+
+//@ extern strconv.FormatUint(i uint64, base int) (result string)
+//@ trusted strconv: pure function; only used to build error messages
